@@ -181,7 +181,7 @@ prop("C17", "exploration",
      {"quick": 80, "thorough": 500},
      ["'observed height' is the active account's last confirmed height after a successful refresh at the tip",
       "a refresh that returns an error or validated=false is not judged"],
-     required_hist=["refused-expired:Receive", "refused-expired:Finalize", "refused-expired:PayInvoice", "refused-expired:FinalizeInvoice", "accepted-in-time:Receive", "refresh-released-expired", "refresh-kept-unexpired", "refresh-kept-other-pending", "refresh-case:self-send-in-one-account", "pay-invoice-with-own-ttl_blocks"])
+     required_hist=["refused-expired:Receive", "refused-expired:Finalize", "refused-expired:PayInvoice", "refused-expired:FinalizeInvoice", "accepted-in-time:Receive", "refresh-released-expired", "step-arrives-while-another-account-is-active:Receive", "huge-ttl_blocks:cutoff-ahead", "refresh-case:older-ttl-send-confirmed-only-by-its-kernel", "refresh-kept-unexpired", "refresh-kept-other-pending", "refresh-case:self-send-in-one-account", "pay-invoice-with-own-ttl_blocks"])
 
 prop("C05", "exploration",
      "two wallets x two accounts; pending transaction kinds (sent: locked / received by peer / finalized; received; received then finalized by peer; invoice payee: issued / processed; "
